@@ -367,8 +367,15 @@ fn on_arrive(w: &mut World, st: &mut St, to: usize, p: &Packet, alone: bool) -> 
         match st.cur_rx[to] {
             Some(k) if k == key => {}
             Some(k) => {
-                st.poison_until[to] = now + 61_000_000;
-                let _ = k;
+                // an incomplete datagram occupies the slot until the reassembly timeout (60 s after its first
+                // fragment); once that has certainly passed the slot is free again and this datagram owns it
+                let timed_out = st.frag_rx[to].get(&k).map(|a| now - a.first_at > 61_000_000).unwrap_or(true);
+                if timed_out && now > st.poison_until[to] {
+                    st.cur_rx[to] = Some(key);
+                    w.stats.inc("frag.rx-slot-reused-after-timeout");
+                } else {
+                    st.poison_until[to] = now + 61_000_000;
+                }
             }
             None => st.cur_rx[to] = Some(key),
         }
@@ -916,7 +923,11 @@ fn app_step(w: &mut World, st: &mut St, n: usize, tape: &mut Tape) -> Result<boo
     }
     if st.ops_left > 0 {
         // the application comes back by itself
-        let d = *tape.pick(&[1_000i64, 100, 20_000, 300_000, 1_200_000]);
+        // (now and then a pause longer than the 60 s reassembly / neighbour-cache lifetimes)
+        // (biased to land right after a reassembly was left incomplete: the slot has to time out cleanly)
+        let incomplete = st.poison_until[0].max(st.poison_until[1]) > w.now || st.cur_rx[0].is_some() || st.cur_rx[1].is_some();
+        let long = if incomplete { tape.draw(5) == 4 } else { tape.draw(24) == 23 };
+        let d = if long { 62_000_000 } else { *tape.pick(&[1_000i64, 100, 20_000, 300_000, 1_200_000]) };
         w.schedule(w.now + d, Ev::App { node: n });
     }
     Ok(did)
